@@ -54,6 +54,15 @@ var solvers = []solverDef{
 	{"z3-new/seedN", func(f string, t, seed int) []string {
 		return []string{"-T:" + itoa((t+999)/1000), "smt.random_seed=" + itoa(seed), f}
 	}, "z3-new", 0},
+	// the same two strategies under a second FIXED seed: quantified (forall-exists) invariants are
+	// decided in under a second by one seed and not within the budget by another; which seed is
+	// the lucky one changes whenever the generated query text changes, so two are raced
+	{"z3-new/ematch-s1", func(f string, t, seed int) []string {
+		return []string{"-T:" + itoa((t+999)/1000), "smt.random_seed=1", "smt.mbqi=false", "smt.qi.eager_threshold=100", f}
+	}, "z3-new", 0},
+	{"z3-new/s2", func(f string, t, seed int) []string {
+		return []string{"-T:" + itoa((t+999)/1000), "smt.random_seed=2", f}
+	}, "z3-new", 0},
 	{"cvc5", func(f string, t, seed int) []string {
 		return []string{"--tlimit=" + itoa(t), "--seed=" + itoa(seed), "--produce-models", f}
 	}, "cvc5", 0},
